@@ -879,3 +879,114 @@ func runNameVerbatim(c *Ctx) {
 		c.Bad("name-verbatim/none", token.NoPos, "found no FileItem literal with a RelPath in pkg/manifest")
 	}
 }
+
+// ---------------------------------------------------------------------------
+// F73
+
+func init() {
+	Register(&Rule{
+		Name:  "R-HEADER-READ-CANCELLABLE",
+		Props: []string{"C02"},
+		Min:   1,
+		Doc: "a receiver that is cancelled while the manifest header is on its way returns (F73): readControlHeader - plain blocking reads - is called only from a goroutine whose result the enclosing function awaits in a select that also has a `<-ctx.Done()` clause, on a channel with room for the abandoned result; " +
+			"a direct call from a function that was given a context sits in the read until the stream ends (a sender that stalled, or was lost without a close)",
+		Run: runHeaderReadCancellable,
+	})
+}
+
+func runHeaderReadCancellable(c *Ctx) {
+	p := c.P
+	target := p.Func("transfer.readControlHeader")
+	if target == nil {
+		c.MissingAnchor("transfer.readControlHeader")
+		return
+	}
+	n := 0
+	for _, f := range p.FuncsIn("internal/transfer") {
+		if f.Body == nil || strings.HasSuffix(p.Fset.Position(f.Pos()).Filename, "_test.go") {
+			continue
+		}
+		info := f.Info()
+		InspectNoLits(f.Body, func(m ast.Node) bool {
+			call, ok := m.(*ast.CallExpr)
+			if !ok || p.CalleeInfo(info, call) != target {
+				return true
+			}
+			n++
+			key := fmt.Sprintf("header-read/%s#%d", f.Name, n)
+			// inside a go literal of a function that selects on its context and on the result
+			parent := f.Parent
+			isGo := false
+			if f.Lit != nil && parent != nil {
+				ast.Inspect(parent.Body, func(x ast.Node) bool {
+					if gs, ok := x.(*ast.GoStmt); ok && ast.Unparen(gs.Call.Fun) == ast.Expr(f.Lit) {
+						isGo = true
+					}
+					return true
+				})
+			}
+			if !isGo {
+				// a function without a context of its own has nothing to be cancelled by
+				hasCtx := false
+				root := f.Root()
+				if root.Type.Params != nil {
+					for _, fl := range root.Type.Params.List {
+						if t := root.Info().TypeOf(fl.Type); t != nil && t.String() == "context.Context" {
+							hasCtx = true
+						}
+					}
+				}
+				c.Check(!hasCtx, key, call.Pos(), "called from a function that has no context to be cancelled by",
+					f.Name+" reads the manifest header with a direct call of readControlHeader although it was given a context: the read is a plain blocking read, and a receiver that is cancelled while the header has not arrived completely "+
+						"(a sender that stalled, or was lost without a close) returns only when the stream ends")
+				return true
+			}
+			// the result channel of the goroutine and the select in the parent
+			var resCh types.Object
+			InspectNoLits(f.Body, func(x ast.Node) bool {
+				if ss, ok := x.(*ast.SendStmt); ok {
+					resCh = ObjOf(info, ss.Chan)
+				}
+				return true
+			})
+			waits, cancels, buffered := false, false, false
+			InspectNoLits(parent.Body, func(x ast.Node) bool {
+				switch s := x.(type) {
+				case *ast.SelectStmt:
+					var w, cdone bool
+					for _, cl := range s.Body.List {
+						cc, ok := cl.(*ast.CommClause)
+						if !ok || cc.Comm == nil {
+							continue
+						}
+						if resCh != nil && ObjOf(info, commRecvExpr(cc)) == resCh {
+							w = true
+						}
+						if strings.HasSuffix(types.ExprString(commRecvExpr(cc)), ".Done()") {
+							cdone = true
+						}
+					}
+					if w && cdone {
+						waits, cancels = true, true
+					}
+				case *ast.AssignStmt:
+					if len(s.Lhs) == 1 && len(s.Rhs) == 1 && resCh != nil && ObjOf(info, s.Lhs[0]) == resCh {
+						if mk, ok := ast.Unparen(s.Rhs[0]).(*ast.CallExpr); ok && len(mk.Args) >= 2 {
+							if v, ok := constInt(info, mk.Args[1]); ok && v >= 1 {
+								buffered = true
+							}
+						}
+					}
+				}
+				return true
+			})
+			c.Check(waits && cancels && buffered, key, call.Pos(), "read in a goroutine; the caller selects on the result and on its context, the result channel has room",
+				fmt.Sprintf("the goroutine that reads the manifest header in %s is not awaited in a select with a `<-ctx.Done()` clause on a buffered channel (select on result and Done: %v, room for the abandoned result: %v): "+
+					"a cancelled receiver keeps waiting for the header, or the abandoned reader blocks for ever on its send", parent.Name, waits && cancels, buffered))
+			return true
+		})
+	}
+	if n == 0 {
+		c.Bad("header-read/none", target.Pos(), "nothing calls readControlHeader")
+	}
+}
